@@ -20,16 +20,17 @@ deriving DecidableEq, Repr
 inductive Method | GET | PUT | POST | PATCH | DELETE
 deriving DecidableEq, Repr
 
-inductive Fang | plain | jwt | basic | tag (t : Str)
+inductive Fang | plain | jwt | basic | key (scheme : Str) | tag (t : Str)      -- `key`: a fang documenting an API-key scheme of that name
 deriving DecidableEq, Repr
 
 def Fang.isAuth : Fang → Bool
-  | .jwt | .basic => true
+  | .jwt | .basic | .key _ => true
   | _ => false
 
 def Fang.scheme : Fang → Option Str
   | .jwt => some "jwtAuth".toList
   | .basic => some "basicAuth".toList
+  | .key n => some n
   | _ => none
 
 inductive PKind | path | query
@@ -69,6 +70,7 @@ def Fang.mapOperation (f : Fang) (op : Operation) : Operation :=
   | .plain => op
   | .jwt => { op with security := op.security ++ ["jwtAuth".toList] }
   | .basic => { op with security := op.security ++ ["basicAuth".toList] }
+  | .key n => { op with security := op.security ++ [n] }
   | .tag t => { op with tags := op.tags ++ [t] }
 
 /-- `Fangs::into_proc_with`: from the innermost fang outwards -/
